@@ -125,7 +125,7 @@ fn text_of(m: &Message) -> String {
 
 fn main() {
     let args = Args::parse();
-    std::panic::set_hook(Box::new(|_| {}));
+    vcore::quiet_panics();
     let mut report = Report::new(
         "codec_ws",
         "aquatic_ws_protocol: from_ws_message(to_ws_message(m)) == m for text and binary frames over all message kinds with optional fields present/absent/null and hostile SDP text; emitted JSON read by an independent parser (identifiers are 20 chars <= U+00FF equal to the bytes); identifier strings of length 0..40 with characters above U+00FF accepted iff exactly 20 chars <= U+00FF; \
